@@ -16,6 +16,10 @@
 (A'+C') c18_statics.py: the reset inventory widened to every file-scope / function-static variable of every code*.c
     (Generated/GenStatics.lean, Props/C18_Statics.lean), the experiments behind its exception list and setter histories
     for the persistent variables whose writing instruction is known.
+(A''+C'') c18_carry.py: what a target selection / a pass leaves behind in the CORE (Generated/GenCarry.lean from translate/carry.py, Props/C18_Carry.lean):
+    core globals some SwitchTo_* assigns and another does not must be reset by SetCPUCore; every variable of the 17 core modules written during a
+    pass must be assigned on the per-pass / per-file path; differential classes "predecessor selects a keyword-occupying target, successor uses the
+    keyword's generic meaning" and "predecessor leaves temporary-symbol state, successor references before defining".
 """
 import concurrent.futures
 import json
@@ -484,7 +488,7 @@ def tests_by_cpu(tests):
 def run(args):
     global GEN_6502
     res = common.Result("C18", args.tier, args.seed, "proof")
-    bdir, audit, proof_problems = common.standard_setup(res, "C18", ["GenState", "GenStatics", "TargetDesc"])
+    bdir, audit, proof_problems = common.standard_setup(res, "C18", ["GenState", "GenStatics", "TargetDesc", "GenCarry"])
     if bdir is None:
         return res.finish()
     drv_ok = not any(p.startswith("driver does not build") for p in proof_problems)
@@ -820,6 +824,14 @@ def run(args):
         evaluations += n_td
         dist["targetdesc_part_wall_s"] = round(_time.time() - _t0, 1)
 
+        # ---------------- what a target selection / a pass leaves behind in the core: keyword occupation, temporary-symbol state (Props/C18_Carry.lean)
+        from . import c18_carry
+        import sys as _sys
+        _t0 = _time.time()
+        n_cy, carry_ev = c18_carry.run(_sys.modules[__name__], bdir, wd, args, common.rng_for(args.seed, "C18carry"), spec_fail, proof_problems, dist, distinct, samples)
+        evaluations += n_cy
+        dist["carry_part_wall_s"] = round(_time.time() - _t0, 1)
+
         # ---------------- invocation options that create per-file state / per-file outputs (error log, listing, map, share file, -Y bookkeeping ...)
         from . import c18_options
         _t0 = _time.time()
@@ -840,6 +852,9 @@ def run(args):
         "named in ValidSegs assignments and the elements of Grans/ListGrans/SegInits/SegLimits and the scalars assigned; dumper linked against the current build's objects: the description "
         "after `cpu <name>` for every CPU name, poisoned between the lines with two different values; the two routes are cross-checked) and the exception lists of "
         "Props/C18_TargetDesc.lean / c18_targetdesc.py",
+        "translate/carry.py (clang-14 JSON AST of the 17 core modules and every code*.c: may-assign sets of every function, call graph across the core modules; reset closure = "
+        "AssembleFile_InitPass with its direct callees, AsmSubPassInit, AsmErrPassInit, AssembleFile_ExitPass, AddInitPassProc procedures, the per-file initialisers, below them only "
+        "functions whose name says Init/Reset/Clear/Free/Unset/SetCPU) and the exception lists of Props/C18_Carry.lean",
         "correspondence: real asl vs Model.TargetDesc (label values, error flag) and Model.SharedState (records with exports) on generated histories (differential test)",
         "correspondence: real asl vs Model.FileOut (error log handle, ErrorCount/WarnCount/JmpErrors, -Y/-maxerrors/-Werror, pass loop over a 6502 statement set) on generated "
         "histories under option sets (differential test); differential part under 42 option atoms: every per-file output of the joint run vs the stand-alone run",
@@ -849,7 +864,7 @@ def run(args):
         evaluations=evaluations, distinct_nontrivial=len(distinct),
         rule="one evaluation = one joint run `asl f1..fn` (n >= 2, or n = 1 with a forced further pass) compared file by file with the single runs; "
              "distinct by (ordered) file list / op list; non-trivial = at least two files or a forced pass",
-        samples=samples, distribution=dist, inventory_not_reset=unreset_inv, statics=statics_ev, target_description=targetdesc_ev, options=options_ev,
+        samples=samples, distribution=dist, inventory_not_reset=unreset_inv, statics=statics_ev, target_description=targetdesc_ev, options=options_ev, core_carry=carry_ev,
         core_vars_needing_per_pass_reset=[r["var"] for r in core_rows if r["cls"] == "perpass"])
     res.assumptions = ["the state of a code generator is its file-scope and function-static variables (Generated/GenStatics, all code*.c) plus what its ASSUMERec tables, AddONOFF calls, "
                        "tCPUArg tables and a pASSUMEOverride handler reach (Generated/GenState); statics of the shared *pseudo.c helpers are covered only by the differential histories",
